@@ -317,7 +317,9 @@ impl Report {
             .filter(|(k, _)| findings.open_match(self.id, k).is_none())
             .map(|(_, c)| *c)
             .sum();
-        let dir = format!("{}/replays/{}", VERIF, self.id);
+        // JBV_OUT redirects evidence and replay files (used for background experiments only; registered commands never set it)
+        let out_base = std::env::var("JBV_OUT").unwrap_or_else(|_| VERIF.to_string());
+        let dir = format!("{}/replays/{}", out_base, self.id);
         let _ = std::fs::create_dir_all(&dir);
         // clear old replay files of this property
         if let Ok(rd) = std::fs::read_dir(&dir) {
@@ -382,8 +384,8 @@ impl Report {
             "violations": new_total,
             "guards_failed": inner.guards_failed,
         });
-        let _ = std::fs::create_dir_all(format!("{}/evidence", VERIF));
-        let path = format!("{}/evidence/{}.json", VERIF, self.id);
+        let _ = std::fs::create_dir_all(format!("{}/evidence", out_base));
+        let path = format!("{}/evidence/{}.json", out_base, self.id);
         std::fs::write(&path, serde_json::to_string_pretty(&ev).unwrap()).expect("write evidence");
         crate::elog!(
             "[{} {}] evaluations={} distinct={} comparisons={} outcomes={} violations(new)={} known={} wall={:.1}s",
